@@ -2760,6 +2760,20 @@ func (d *c17d_bn254) mpcFamily() {
 			p = ck.cp(a)
 			d.kzgSrs(p.next).Vk.G2[1] = d.off2().P
 			c17Forged(tr, ck, "offgroup", p)
+			if tor, ok := d.torsion1(); ok {
+				// an honest power shifted by a cofactor-torsion point (the pairings are blind to the shift), at the first
+				// updated power, in the middle and at the last one
+				g1s := d.kzgSrs(a.next).Pk.G1
+				for _, i := range []int{1, len(g1s) / 2, len(g1s) - 1} {
+					if i < 1 || i >= len(g1s) {
+						continue
+					}
+					p = ck.cp(a)
+					q := &d.kzgSrs(p.next).Pk.G1[i]
+					q.Add(q, &tor)
+					c17Forged(tr, ck, "offgroup", p)
+				}
+			}
 			if N > 2 {
 				p = ck.cp(a) // two powers exchanged: every element stays in the subgroup, the sequence is not geometric
 				sr = d.kzgSrs(p.next)
